@@ -14,7 +14,9 @@
 
   Sections 1–6: semantic equalities.  Section 7: the flag level of boundary.py.  Section 8: the generated
   programs themselves (`*_prog`, by `rfl`): a tripwire for edits that are semantically neutral in the model
-  (e.g. a reordering of two flag resets) — such an edit breaks only its `*_prog` theorem.
+  (e.g. a reordering of two flag resets) — such an edit breaks only its `*_prog` example.  They are `example`s, not
+  theorems: they are NOT proof obligations of any property (they can only fail on edits that preserve the
+  behaviour), they just make such an edit visible in the build log.
 -/
 import PyFV.Gen.StateGen
 import PyFV.Lemmas.StateIRLemmas
@@ -45,7 +47,12 @@ theorem exec_call_apply_BCs (r : Ref) (c : Cfg) :
 
 theorem evalB_BCs_outdated (s : St) (g : Regs) :
     evalB s g BCs_outdated = outdated s (s.vars g.self) := by
-  simp only [BCs_outdated, evalB, Regs.get, outdated]
+  simp only [BCs_outdated, evalB, Regs.get, outdated] <;>
+    first
+    | rfl
+    | ac_rfl
+    | (simp only [Bool.or_assoc, Bool.or_comm, Bool.or_left_comm, Bool.and_assoc, Bool.and_comm, Bool.and_left_comm] <;> done)
+    | (cases (s.bcs (s.vars g.self).bc).modified <;> cases (s.vars g.self).valMod <;> simp <;> done)
 
 /-- `CellVariable._BCs_outdated` = `State.outdated` -/
 theorem BCs_outdated_eq (s : St) (v : Nat) : eval s v BCs_outdated = outdated s (s.vars v) := by
@@ -255,10 +262,10 @@ theorem BCs_modified_set_ignores_value (F : BCFlags) : BCs_modified_set F true =
 
 /-! ## 8. the generated programs (tripwire) -/
 
-theorem BCs_outdated_prog : BCs_outdated =
+example : BCs_outdated =
   BExp.or (.or (.bcModified .self) (.valModified .self)) (.appliedNeToken .self) := rfl
 
-theorem apply_BCs_prog : apply_BCs =
+example : apply_BCs =
   Prog.block [
     .prim (.ghostFromCurrent .self),
     .prim (.setValMod .self false),
@@ -270,12 +277,12 @@ theorem apply_BCs_prog : apply_BCs =
     .prim (.setBCMod .self false),
     .prim (.setValMod .self false)] := rfl
 
-theorem update_value_prog : update_value =
+example : update_value =
   Prog.block [
     .prim (.valueFrom .self .other),
     .prim (.setValMod .self true)] := rfl
 
-theorem copy_prog : copy =
+example : copy =
   Prog.block [
     .prim (.bcDeepcopy .self),
     .prim .allocVar,
@@ -293,17 +300,17 @@ theorem copy_prog : copy =
     .prim (.copyValMod .new .self),
     .prim (.ret .new)] := rfl
 
-theorem value_setter_prog : value_setter =
+example : value_setter =
   Prog.block [
     .prim (.newInterior .self),
     .prim (.setValMod .self true)] := rfl
 
-theorem value_item_assign_prog : value_item_assign =
+example : value_item_assign =
   Prog.block [
     .prim (.newInterior .self),
     .prim (.setValMod .self true)] := rfl
 
-theorem ctor_user_bc_prog : ctor_user_bc =
+example : ctor_user_bc =
   Prog.block [
     .prim .bcArg,
     .prim .allocVar,
@@ -319,7 +326,7 @@ theorem ctor_user_bc_prog : ctor_user_bc =
     .prim (.setValMod .new false),
     .prim (.ret .new)] := rfl
 
-theorem ctor_user_default_prog : ctor_user_default =
+example : ctor_user_default =
   Prog.block [
     .prim .allocVar,
     .prim (.setPrecalc .new true),
@@ -335,7 +342,7 @@ theorem ctor_user_default_prog : ctor_user_default =
     .prim (.setValMod .new false),
     .prim (.ret .new)] := rfl
 
-theorem arith_prog : arith =
+example : arith =
   Prog.block [
     .prim (.bcDeepcopy .self),
     .prim .allocVar,
@@ -351,7 +358,7 @@ theorem arith_prog : arith =
     .prim (.setValMod .new false),
     .prim (.ret .new)] := rfl
 
-theorem funceval_prog : funceval =
+example : funceval =
   Prog.block [
     .prim (.bcDeepcopy .self),
     .prim .allocVar,
@@ -367,7 +374,7 @@ theorem funceval_prog : funceval =
     .prim (.setValMod .new false),
     .prim (.ret .new)] := rfl
 
-theorem solvePDE_prog : solvePDE =
+example : solvePDE =
   Prog.block [
     .ite (.not (.precalc .self))
         (.block [
@@ -384,7 +391,7 @@ theorem solvePDE_prog : solvePDE =
     .call apply_BCs .self,
     .prim (.ret .self)] := rfl
 
-theorem solveExplicitPDE_prog : solveExplicitPDE =
+example : solveExplicitPDE =
   Prog.block [
     .ite (.call BCs_outdated .self)
         (.block [
